@@ -1,6 +1,9 @@
 package main
 
 import (
+	"bufio"
+	"fmt"
+	"os"
 	"strconv"
 
 	"github.com/frankkopp/FrankyGo/internal/movegen"
@@ -187,3 +190,65 @@ func c17Monitor(args []string) int {
 }
 
 func init() { register("c17-monitor", c17Monitor) }
+
+// c17-cases <n> <seed> <out.v>: observations of the real encoding functions for the Coq model
+// (MoveEnc.enc_create_ok / enc_get_ok / enc_set_ok).
+func c17Cases(args []string) int {
+	n, _ := strconv.Atoi(args[0])
+	seed, _ := strconv.ParseUint(args[1], 10, 64)
+	rng := NewRng(seed)
+	f, err := os.Create(args[2])
+	if err != nil {
+		die(err)
+	}
+	defer f.Close()
+	w := bufio.NewWriter(f)
+	defer w.Flush()
+	rep := NewReport("c17-cases")
+	w.WriteString("(* GENERATED by verifh c17-cases: observations of the real move encoding functions *)\nFrom Coq Require Import ZArith NArith List.\nFrom FG Require Import MoveEnc CasesEnc.\nImport ListNotations.\n")
+	w.WriteString("Definition cases : list (N*N*N*N*Z*N*N * (N*N*N*N*N*Z*N*bool) * (N*Z*N)) := [\n")
+	vals := []int{-15001, -10000, 10000, -1, 0, 1, 15000, -15000, 32767, -32768, 9871, -9872}
+	zl := func(v int) string { return fmt.Sprintf("(%d)%%Z", v) }
+	for i := 0; i < n; i++ {
+		from, to := Square(rng.Intn(64)), Square(rng.Intn(64))
+		ty := MoveType(rng.Intn(4))
+		pr := PieceType(rng.Intn(7))
+		v := vals[rng.Intn(len(vals))]
+		if rng.Bool() {
+			v = rng.Intn(65536) - 32768
+		}
+		cm := CreateMove(from, to, ty, pr)
+		cmv := CreateMoveValue(from, to, ty, pr, Value(v))
+		m32 := Move(uint32(rng.U64()))
+		if rng.Chance(30) {
+			m32 = cmv
+		}
+		if rng.Chance(5) {
+			m32 = 0
+		}
+		sm := Move(uint32(rng.U64()))
+		if rng.Chance(10) {
+			sm = 0
+		}
+		sv := vals[rng.Intn(len(vals))]
+		if rng.Bool() {
+			sv = rng.Intn(65536) - 32768
+		}
+		sm2 := sm
+		got := sm2.SetValue(Value(sv))
+		if i > 0 {
+			w.WriteString(";\n")
+		}
+		fmt.Fprintf(w, "(%d%%N,%d%%N,%d%%N,%d%%N,%s,%d%%N,%d%%N,(%d%%N,%d%%N,%d%%N,%d%%N,%d%%N,%s,%d%%N,%v),(%d%%N,%s,%d%%N))",
+			from, to, ty, pr, zl(v), uint32(cm), uint32(cmv),
+			uint32(m32), m32.From(), m32.To(), m32.MoveType(), m32.PromotionType(), zl(int(m32.ValueOf())), uint32(m32.MoveOf()), m32.IsValid(),
+			uint32(sm), zl(sv), uint32(got))
+		rep.Cases++
+	}
+	w.WriteString("].\nDefinition M := Eval vm_compute in (enc_mismatches cases).\nPrint M.\n")
+	rep.Distinct = rep.Cases
+	rep.Sample(map[string]interface{}{"CreateMoveValue(e2,e4,Normal,Knight,-10000)": uint32(CreateMoveValue(SqE2, SqE4, Normal, Knight, -10000))})
+	return rep.Emit()
+}
+
+func init() { register("c17-cases", c17Cases) }
